@@ -267,6 +267,8 @@ def blocking_under_lock(repo):
 
 
 def run(repo, rep):
+    from ..pitfalls import memo_rule as _memo_rule
+    _memo_rule(repo, rep, 'C20', 'C20.Z1')
     _selfcheck()
     rep.assume('NOT DECIDED by this family: behaviour under concrete thread interleavings, independence of failures')
     rep.trust('CPython: threading.local gives per-thread attributes; dict/set single operations are atomic under the GIL; '
